@@ -480,11 +480,7 @@ variant("alg-from-frame-reordered", "C14", GRAPH, """            if y != height:
 # ---- C15 ---------------------------------------------------------------------------------------
 SER = "cspuz/problem_serializer.py"
 mutant("ser-hexint-threshold", "C15", SER, "        if 16 <= v < 256:", "        if 16 <= v <= 256:", "RT-LEAF")
-mutant("ser-hexint-minus-width", "C15", SER, """            if idx + 3 > len(data):
-                return None
-            return 3, [_from_base16(data[idx + 1 : idx + 3])]""", """            if idx + 3 > len(data):
-                return None
-            return 2, [_from_base16(data[idx + 1 : idx + 2])]""", "RT-LEAF")
+mutant("ser-hexint-minus-width", "C15", SER, "            return 3, [_from_base16(data[idx + 1 : idx + 3])]", "            return 2, [_from_base16(data[idx + 1 : idx + 2])]", "RT-LEAF")
 mutant("ser-spaces-max-run", "C15", SER, "        self._max_consecutive = 35 - self._offset", "        self._max_consecutive = 36 - self._offset", "RT-LEAF")
 mutant("ser-spaces-offset", "C15", SER, "            return 1, [self._space for _ in range(i - self._offset)]", "            return 1, [self._space for _ in range(i - self._offset + 1)]", "RT-LEAF")
 mutant("ser-intspaces-div", "C15", SER, "        num_spaces = n // (self._max_int + 1)", "        num_spaces = n // (self._max_int + 2)", "RT-LEAF")
@@ -505,7 +501,7 @@ mutant("ser-rooms-codec-mismatch", "C15", SER, """        combinator = Tupl(
             Grid(MultiDigit(base=2, digits=5), height=height, width=width - 1),
         )
         res = combinator.deserialize(env, data, idx)""", "RT-ROOMS")
-mutant("ser-rooms-dfs-guard", "C15", SER, "            if y < height - 1 and not horizontal[y][x]:\n                dfs(y + 1, x, id)", "            if y < height - 1 and not horizontal[y][x] and x > 0:\n                dfs(y + 1, x, id)", "RT-ROOMS")
+mutant("ser-rooms-fill-guard", "C15", SER, "                if y < height - 1 and not horizontal[y][x]:\n                    stack.append((y + 1, x))", "                if y < height - 1 and not horizontal[y][x] and x > 0:\n                    stack.append((y + 1, x))", "RT-ROOMS")
 mutant("ser-valued-rooms-raw-sort", "C15", SER, "zip(*sorted(zip(*d), key=lambda rv: min(rv[0])))", "zip(*sorted(zip(*d)))", "RT-ROOMS", "the original defect")
 mutant("ser-valued-rooms-count", "C15", SER, "        value_combinator = Seq(self._value_combinator, len(rooms0))", "        value_combinator = Seq(self._value_combinator, max(1, len(rooms0) - 1))", "RT-ROOMS")
 variant("ser-valued-rooms-sorted-cells", "C15", SER, "zip(*sorted(zip(*d), key=lambda rv: min(rv[0])))", "zip(*sorted(zip(*d), key=lambda rv: sorted(rv[0])[0]))")
